@@ -14,7 +14,14 @@ n,rp=sys.argv[1:3]
 pid=n.split('-')[0]
 d=json.load(open(rp))
 os.makedirs('corpus/%s'%pid,exist_ok=True)
-json.dump(dict(case=d['case'],origin='a case on which seeded change %s was detected'%n),open('corpus/%s/seeded-%s.json'%(pid,n),'w'))
+case=d.get('case')
+if case is None and d.get('first_differences'):
+    case=d['first_differences'][0]['case']      # a broken correspondence without an oracle failure: the first differing case
+if case is None and d.get('cases'):
+    case=d['cases'][0]
+if case is None:
+    print('%s :: the replay holds no case'%n); sys.exit(0)
+json.dump(dict(case=case,origin='a case on which seeded change %s was detected'%n),open('corpus/%s/seeded-%s.json'%(pid,n),'w'))
 print('%s :: corpus case stored from %s'%(n,rp))
 PY
 done
